@@ -20,6 +20,7 @@ from . import _c11_ref as R
 
 ID = "C11"
 LEAN_MODULES = ["NiftyVerif.Core.Proto", "NiftyVerif.Model.Transc", "NiftyVerif.Model.Likelihood",
+                "NiftyVerif.Lemmas.LikelihoodScalar", "NiftyVerif.Lemmas.LikelihoodLists",
                 "NiftyVerif.Props.C11"]
 DRIVER = "Driver/C11.lean"
 TRANSLATORS = []
